@@ -1746,6 +1746,19 @@ def _python_can_to_isotp_message(msg: Optional["can.Message"]) -> Optional[CanMe
     return CanMessage(arbitration_id=msg.arbitration_id, data=msg.data, extended_id=msg.is_extended_id, is_fd=msg.is_fd, bitrate_switch=msg.bitrate_switch)
 
 
+def _read_isotp_message(read: Callable[[float], Optional["can.Message"]], timeout: float) -> Optional[CanMessage]:
+    """Reads until a usable CAN message is available or the timeout elapses. Error and remote frames are skipped instead of
+    being reported as "nothing received", so that they cannot slow down the thread that reads the bus."""
+    t_end = time.perf_counter() + timeout
+    while True:
+        can_msg = read(max(0, t_end - time.perf_counter()))
+        if can_msg is None:     # nothing (more) on the bus within the timeout
+            return None
+        msg = _python_can_to_isotp_message(can_msg)
+        if msg is not None:
+            return msg
+
+
 class CanStack(TransportLayer, BusOwner):
     """
     The IsoTP transport layer pre configured to use `python-can <https://python-can.readthedocs.io>`__ as CAN layer. python-can must be installed in order to use this class.
@@ -1766,8 +1779,7 @@ class CanStack(TransportLayer, BusOwner):
     bus: "can.BusABC"
 
     def _rx_canbus(self, timeout: float) -> Optional[CanMessage]:
-        msg = self.bus.recv(timeout)
-        return _python_can_to_isotp_message(msg)
+        return _read_isotp_message(self.bus.recv, timeout)
 
     def __init__(self, bus: "can.BusABC", *args: Any, **kwargs: Any):
         if not _can_available:
@@ -1814,8 +1826,7 @@ class NotifierBasedCanStack(TransportLayer, BusOwner):
         if self.buffered_reader is None:
             return None
 
-        msg = self.buffered_reader.get_message(timeout=timeout)
-        return _python_can_to_isotp_message(msg)
+        return _read_isotp_message(self.buffered_reader.get_message, timeout)
 
     def __init__(self, bus: "can.BusABC", notifier: "can.Notifier", *args: Any, **kwargs: Any) -> None:
         if not _can_available:
